@@ -10,21 +10,41 @@ cd $WT && git checkout -q -- . && git clean -fdq -e target && git checkout -q --
 export CARGO_TARGET_DIR=$WT/target CARGO_NET_OFFLINE=true
 DEMO=""
 [ -f "$D/demo_test.rs" ] && DEMO="$D/demo_test.rs"
+FEAT=""
+grep -q test_phf "$D/meta.json" 2>/dev/null && FEAT="--features test_phf"
+DEMODIR=""
+[ -d "$D/demo_crate" ] && DEMODIR="$D/demo_crate"
+[ -d "$D/demo" ] && DEMODIR="$D/demo"
 run_demo() {
   if [ -n "$DEMO" ]; then
     cp "$DEMO" $WT/strum_tests/tests/demo_test.rs
-    (cd $WT && timeout 900 cargo test --offline -p strum_tests --test demo_test >/tmp/mutrun.demo.log 2>&1); r=$?
+    (cd $WT && timeout 900 cargo test --offline -p strum_tests $FEAT --test demo_test >/tmp/mutrun.demo.log 2>&1); r=$?
     rm -f $WT/strum_tests/tests/demo_test.rs
+    return $r
+  fi
+  if [ -n "$DEMODIR" ]; then
+    rm -rf $WT/demo_x && cp -r "$DEMODIR" $WT/demo_x && rm -rf $WT/demo_x/target $WT/demo_x/Cargo.lock
+    sed -i -E "s#/tmp/mut/C[0-9]+/#$WT/#g" $WT/demo_x/Cargo.toml
+    cp /repo/Cargo.lock $WT/demo_x/Cargo.lock 2>/dev/null
+    if [ -f $WT/demo_x/run.sh ]; then
+      (cd $WT/demo_x && sed -i -E "s#/tmp/mut/C[0-9]+/#$WT/#g" run.sh && CARGO_TARGET_DIR=$WT/target/demo_x timeout 900 sh run.sh >/tmp/mutrun.demo.log 2>&1); r=$?
+      tail -2 /tmp/mutrun.demo.log
+    else
+      (cd $WT/demo_x && CARGO_TARGET_DIR=$WT/target/demo_x timeout 900 cargo build --offline >/tmp/mutrun.demo.log 2>&1); r=$?
+    fi
+    rm -rf $WT/demo_x
     return $r
   fi
   return 99
 }
-echo "== clean tree: demo"; run_demo; echo "demo exit (clean) = $?"
+if [ -z "${FAST:-}" ]; then echo "== clean tree: demo"; run_demo; echo "demo exit (clean) = $?"; fi
 if ! git -C $WT apply --check "$D/patch.diff" 2>/tmp/mutrun.apply.err; then echo "PATCH DOES NOT APPLY: $(cat /tmp/mutrun.apply.err | head -3)"; exit 3; fi
 git -C $WT apply "$D/patch.diff"
+if [ -z "${FAST:-}" ]; then
 echo "== mutated tree: existing tests"
 (cd $WT && timeout 1800 cargo test --workspace --no-fail-fast --offline 2>&1 | grep -E "^test result|FAILED|error(\[|:)" | awk '/test result/{p+=$4; f+=$6} /FAILED|error/{print} END {print "passed",p,"failed",f}')
 echo "== mutated tree: demo"; run_demo; echo "demo exit (mutated) = $?"
+fi
 for id in "$@"; do
   echo "== check $id"
   (cd /verif && REPO_ROOT=$WT VERIF_NO_REDUCE=${VERIF_NO_REDUCE:-1} timeout 1800 bin/check $id quick 2>&1 | grep -E "^(OK|VIOLATION|INCONCLUSIVE|KNOWN|  kind)" | cut -c1-400 | head -6)
